@@ -55,6 +55,8 @@ def gen(rng, tier, mult=1):
         if i % 25 == 0:
             c["final_fresh_process"] = True
         yield c
+    for i in range((40 if quick else 1500) * mult):
+        yield S.gen_source_freshness(rng)
     for i in range(n_fn):
         yield S.gen_fn(rng, i)
     for i in range(n_crash if quick else 0):
